@@ -137,7 +137,9 @@ pub fn gen_rep_scenario(rng: &mut sim_core::prng::Rng, max_replicas: u64) -> Rep
         kt_start: *rng.pick(&[0.1, 0.1, 1.0, 0.0, 10.0, 100.0]),
         kt_finish: *rng.pick(&[Some(0.001), None]),
         kt_ratio: *rng.pick(&[None, None, Some(0.1)]),
-        max_step_size: *rng.pick(&[0.01, 0.1, 0.2, 0.5]),
+        // tiny steps make the replicas finish within 1e-6 .. 1e-4 of each other (near ties in the
+        // final reduction)
+        max_step_size: *rng.pick(&[0.01, 0.1, 0.2, 0.5, 1e-5, 3e-6, 1e-4]),
         convergence: *rng.pick(&[None, None, Some(1e-6)]),
         stale_output: rng.chance(0.3),
         log_level: *rng.pick(&[0u64, 0, 0, 1, 2]),
